@@ -1,5 +1,8 @@
 use futures::channel::oneshot::Sender;
+#[cfg(not(locustdb_verif))]
 use std::sync::Mutex;
+#[cfg(locustdb_verif)]
+use locustdb_simrt::sync::Mutex;
 use std::mem;
 
 pub struct SharedSender<T> {
